@@ -249,14 +249,24 @@ func (i *interpreter) sprintf(format value, args []value) value {
 		return "fmt.Sprintf:<symbolic format>"
 	}
 	var goArgs []interface{}
+	allHost := true
 	for _, a := range args {
 		v, ok := hostValue(a)
 		if !ok {
-			return "fmt.Sprintf:" + f
+			allHost = false
+			break
 		}
 		goArgs = append(goArgs, v)
 	}
-	return fmt.Sprintf(f, goArgs...)
+	if allHost {
+		return fmt.Sprintf(f, goArgs...)
+	}
+	if i.ps != nil && i.inInit == 0 {
+		if bs, ok := i.symSprintf(f, args); ok {
+			return mkstr(bs)
+		}
+	}
+	return "fmt.Sprintf:" + f
 }
 
 func (i *interpreter) sprint(args []value, ln bool) value {
